@@ -61,3 +61,37 @@ def c12(run, replay):
              "per-parameter decodability), each executed against a real RPCServer / custom-transport client; distinct = distinct abstract rows",
         sig=lambda t: "row %s" % json.dumps(t["row"], sort_keys=True),
         mc_timeout=1200, trace_timeout=1800)
+
+
+# --------------------------------------------------------------------------------------------- C09
+def _cfg_with(run, wd, src_cfg, dst_cfg, repl):
+    import shutil
+    for f in os.listdir(vp.SPEC):
+        if f.endswith(".tla") or f.endswith(".cfg"):
+            shutil.copy(os.path.join(vp.SPEC, f), wd)
+    cfg = open(os.path.join(vp.SPEC, src_cfg)).read()
+    for a, b in repl:
+        assert a in cfg, (a, src_cfg)
+        cfg = cfg.replace(a, b)
+    with open(os.path.join(wd, dst_cfg), "w") as f:
+        f.write(cfg)
+
+
+@check("C09")
+def c09(run, replay):
+    run.assumptions += [
+        "request grammar: 8 id classes x 14 request classes per element; bodies empty/whitespace/garbage/non-object/null/"
+        "empty batch/batch with malformed element/single/batch of 1..3; batches are built from a seeded TLC sample of element types",
+        "a WebSocket frame without a method member is a response, not a request frame (protocol design)",
+        "tolerated, not demanded: error reply with id null to a notification that failed (HTTP only)",
+        "ids are chosen exactly representable in float64 as the property requires",
+    ]
+    thorough = run.tier == "thorough"
+    wd = run.dir("work")
+    _cfg_with(run, wd, "HttpReplyMC.cfg", "HttpReplyRun.cfg", [("NElems = 5", "NElems = %d" % (16 if thorough else 5))])
+    vp.table_check(
+        run, "HttpReplyMC", "HttpReplyTrace", "c09", mc_cfg="HttpReplyRun.cfg",
+        rule="rows of HttpReply.tla concretised to real bytes (seeded ids, field order, padding, parameter values) and sent "
+             "through RPCServer.HandleRequest, real HTTP and WebSocket frames; distinct = distinct abstract rows",
+        sig=lambda t: "row %s" % json.dumps(t["row"], sort_keys=True),
+        mc_timeout=1200, trace_timeout=1800, harness_timeout=1800)
